@@ -13,3 +13,4 @@ import ZnVerif.Properties.C17
 import ZnVerif.Ops.C17
 import ZnVerif.Properties.C06
 import ZnVerif.Ops.C06
+import ZnVerif.Properties.C18
